@@ -235,6 +235,9 @@ Proof.
   destruct (nth_error gens n); rewrite IH; auto. apply upd_length.
 Qed.
 
+(** (honest label: the loop BODY `await q.put(enumerated)` is written out in this lemma's statement; the
+    regenerated `_enumerate` must contain exactly this body for [enum_spec] to go through -- a pin of that
+    one-statement fragment, everything around it is executed from the generated term) *)
 Lemma for1_put i x : forall qs ps en,
   (forall n, In n qs -> (n < length (p_gens ps))%nat) ->
   en "enumerated"%string = VPair i (Some x) ->
@@ -1170,6 +1173,24 @@ Proof.
         destruct Hx as (g0 & E0 & (k & Hk)). congruence.
       * intros [(_ & H)|(_ & (k & Hk))]; [exact H | discriminate].
 Qed.
+
+(** ---- the defaults of the regenerated signature `subscribe(self, last=.., cache=..)` ----
+    An omitted argument takes the default that translate/pubsub_funs.py emitted into
+    [item_subscribe_params]; the model's [Sub l c] has both explicit.  These equalities hold
+    only for the defaults `last=True, cache=True` and the parameter order (last, cache). *)
+Lemma isub_defaults ps :
+  isub_call ps [] [] = isub ps true true /\
+  (forall l, isub_call ps [] [("last"%string, VBool l)] = isub ps l true) /\
+  (forall c, isub_call ps [] [("cache"%string, VBool c)] = isub ps true c) /\
+  (forall l, isub_call ps [VBool l] [] = isub ps l true) /\
+  (forall l c, isub_call ps [VBool l; VBool c] [] = isub ps l c).
+Proof. repeat split; reflexivity. Qed.
+
+(** `subscribe()` with nothing given is the model's `Sub true true` *)
+Theorem tie_sub_defaults ps : wf ps ->
+  exists ps', isub_call ps [] [] = Some (ps', snd (step (abs ps) (Sub true true))) /\
+              abs ps' = fst (step (abs ps) (Sub true true)) /\ wf ps'.
+Proof. intros Hwf. rewrite (proj1 (isub_defaults ps)). exact (tie_sub ps true true Hwf). Qed.
 
 (** ---- the tie, operation by operation and for whole histories ---- *)
 
